@@ -113,6 +113,17 @@ struct Harness
     return "ok";
   }
 
+  static std::string errKind(const std::string &m)
+  {
+    if (m.find("Key cannot be empty") != std::string::npos) return "emptyKey";
+    if (m.find("Key too large") != std::string::npos) return "keyTooLarge";
+    if (m.find("Value too large") != std::string::npos) return "valueTooLarge";
+    if (m.find("TTL must be greater than zero") != std::string::npos) return "badTtl";
+    if (m.find("Invalid key or value in batch") != std::string::npos) return "badBatch";
+    if (m.find("Failed to initialize KVStore") != std::string::npos) return "loadFailed";
+    return "other";
+  }
+
   static std::string optVal(const std::optional<std::vector<std::uint8_t>> &v)
   {
     if (!v) return "none";
@@ -212,7 +223,13 @@ struct Harness
              " write=" + std::to_string(g_nWrite.load()) + " open=" + std::to_string(g_nOpen.load()) + " rename=" +
              std::to_string(g_nRename.load()) + " truncate=" + std::to_string(g_nTrunc.load()) + " unlink=" +
              std::to_string(g_nUnlink.load()) + " sliced_waits=" + std::to_string(g_slicedWaits.load()) + " stress_reads=" +
-             std::to_string(g_stressReads.load()) + " max_plausible_ms=" + std::to_string(static_cast<long long>(KVStore::kMaxPlausibleEpochMs)) +
+             std::to_string(g_stressReads.load()) + " stress_rounds=" + std::to_string(g_stressRounds.load()) + " stress_big_rounds=" +
+             std::to_string(g_stressBigRounds.load()) + " gate_ops=" + std::to_string(g_gateOps.load()) + " gate_hits=" +
+             std::to_string(g_gateHits.load()) + " gate_writer_blocked=" + std::to_string(g_gateWriterBlocked.load()) +
+             " gate_writer_passed=" + std::to_string(g_gateWriterPassed.load()) + " gate_timeouts=" + std::to_string(g_gateTimeouts.load()) +
+             " wgate_ops=" + std::to_string(g_wgateOps.load()) + " wgate_hits=" + std::to_string(g_wgateHits.load()) + " wgate_writer_blocked=" +
+             std::to_string(g_wgateWriterBlocked.load()) + " wgate_writer_passed=" + std::to_string(g_wgateWriterPassed.load()) +
+             " max_plausible_ms=" + std::to_string(static_cast<long long>(KVStore::kMaxPlausibleEpochMs)) +
              " tp_max_ms=" + std::to_string(static_cast<long long>(KVStore::toEpochMs(Clock::time_point::max())));
     }
     if (!store) return "bad-op";
@@ -223,19 +240,28 @@ struct Harness
       return "ok | -";
     }
     if (op == "stress")
-    { // stress <seed> <ms>: one writer, two readers and the clock race the real wheel + eviction worker (free-running mode).
-      // Implementation-only safety monitor: every value read is one that was written for THAT key (64 equal bytes tagged with
-      // the key), reads never throw; ASan/UBSan watch the rest.  The store's contents afterwards are unspecified: last op of a case.
+    { // stress <seed> <ms>: one writer, two readers and the clock race the real wheel + eviction worker (free-running mode), in ROUNDS:
+      // the writer does a burst of operations on four keys while the readers read them; then all three stop (quiescence) and the
+      // main thread checks, with the clock standing still, that the cache path and the authoritative path agree on every key
+      // (get / getString vs exists / getBatch) and that the cache-coherence monitor holds.  Every third seed uses 1 MiB values.
+      // Implementation-only monitors: every value read is one that was written for THAT key (equal bytes tagged with the key),
+      // reads never throw, post-quiescence coherence; ASan/UBSan watch the rest.  Contents afterwards unspecified: last op of a case.
       unsigned long long seed, ms;
       if (t.size() != 3 || !vh::parseNat(t[1], seed) || !vh::parseNat(t[2], ms) || ms > 2000 || !freeRunning) return "bad-op";
-      std::atomic<bool> stop{false};
+      const bool big = seed % 3 == 0;
+      const size_t bigLen = (1u << 20) + 17;
+      std::atomic<bool> quit{false}, wdone{false};
+      std::atomic<unsigned> gen{0};
+      std::atomic<int> idle{0};
+      std::atomic<unsigned> focus{0}; // the key this round is about: the writer writes it, the readers read it
       std::atomic<unsigned long> reads{0}, bad{0};
       std::string firstBad;
       std::mutex badMutex;
       auto keyOf = [](unsigned i) { return std::string("stress-") + static_cast<char>('a' + i); };
-      auto good = [](unsigned i, const std::vector<std::uint8_t> &v)
+      auto lenOf = [&](unsigned i) { return big && i < 2 ? bigLen : size_t(64); };
+      auto good = [&](unsigned i, const std::vector<std::uint8_t> &v)
       {
-        if (v.size() != 64) return false;
+        if (v.size() != lenOf(i)) return false;
         for (auto b : v)
           if (b != v[0]) return false;
         return (v[0] >> 5) == i;
@@ -246,73 +272,134 @@ struct Harness
         std::lock_guard<std::mutex> g(badMutex);
         if (firstBad.empty()) firstBad = w;
       };
+      auto waitRound = [&](unsigned &my)
+      { // next round number, or false when the run is over
+        while (gen.load() == my && !quit.load()) usleep(20);
+        if (quit.load()) return false;
+        my = gen.load();
+        return true;
+      };
+      g_muteEvents = true;
       std::thread writer([&]
       {
         unsigned long long x = seed * 2654435761ULL + 1;
-        unsigned n = 0;
-        while (!stop.load())
+        unsigned n = 0, my = 0;
+        while (waitRound(my))
         {
+          // a short burst on the round's key: an op that drops the cache entry (expireAt / persist / remove) makes the readers' next
+          // get() take the cache-miss path while the following op of the burst writes the key
           x = x * 6364136223846793005ULL + 1442695040888963407ULL;
-          unsigned i = (x >> 33) % 4, c = (x >> 40) % 7;
-          std::vector<std::uint8_t> v(64, static_cast<std::uint8_t>((i << 5) | (n++ & 31)));
-          try
+          unsigned burst = 1 + static_cast<unsigned>((x >> 20) % 3);
+          for (unsigned b = 0; b < burst; ++b)
           {
-            if (c == 0) store->set(keyOf(i), v);
-            else if (c == 1) store->set(keyOf(i), v, std::chrono::seconds(1));
-            else if (c == 2) store->expireAt(keyOf(i), tpOfMs(std::min<long long>(g_wallMs.load() + static_cast<long long>((x >> 50) % 6), 9223372036854LL)));
-            else if (c == 3) store->persist(keyOf(i));
-            else if (c == 4) store->remove(keyOf(i));
-            else if (c == 5) store->setBatch({{keyOf(i), v}, {keyOf((i + 1) % 4), std::vector<std::uint8_t>(64, static_cast<std::uint8_t>((((i + 1) % 4) << 5) | (n & 31)))}});
-            else store->compact();
+            x = x * 6364136223846793005ULL + 1442695040888963407ULL;
+            unsigned i = ((x >> 33) % 8 == 0) ? static_cast<unsigned>((x >> 36) % 4) : focus.load(), c = (x >> 40) % 7;
+            auto val = [&](unsigned j) { return std::vector<std::uint8_t>(lenOf(j), static_cast<std::uint8_t>((j << 5) | (n++ & 31))); };
+            try
+            {
+              if (c == 0) store->set(keyOf(i), val(i));
+              else if (c == 1) store->set(keyOf(i), val(i), std::chrono::seconds(1));
+              else if (c == 2) store->expireAt(keyOf(i), tpOfMs(std::min<long long>(g_wallMs.load() + (((x >> 53) & 1) ? 3600000LL : static_cast<long long>((x >> 50) % 6)), 9223372036854LL)));
+              else if (c == 3) store->persist(keyOf(i));
+              else if (c == 4) store->remove(keyOf(i));
+              else if (c == 5) store->setBatch({{keyOf(i), val(i)}, {keyOf((i + 1) % 4), val((i + 1) % 4)}});
+              else store->compact();
+            }
+            catch (const std::exception &e)
+            {
+              note(std::string("writer threw ") + typeid(e).name());
+            }
           }
-          catch (const std::exception &e)
-          {
-            note(std::string("writer threw ") + typeid(e).name());
-          }
+          wdone = true;
+          idle++;
         }
       });
       auto readerFn = [&](unsigned long long salt)
       {
         unsigned long long x = (seed ^ salt) * 0x9E3779B97F4A7C15ULL + 7;
-        while (!stop.load())
+        unsigned my = 0;
+        while (waitRound(my))
         {
-          x = x * 6364136223846793005ULL + 1442695040888963407ULL;
-          unsigned i = (x >> 33) % 4;
-          try
+          unsigned it = 0;
+          do
           {
-            auto v = store->get(keyOf(i));
-            if (v && !good(i, *v)) note("get returned a torn or foreign value for " + keyOf(i));
-            auto gb = store->getBatch({keyOf(i), keyOf((i + 1) % 4)});
-            for (auto &kv : gb)
-              if (!good(static_cast<unsigned>(kv.first.back() - 'a'), kv.second)) note("getBatch returned a torn or foreign value for " + kv.first);
-            (void)store->exists(keyOf(i));
-            (void)store->ttl(keyOf(i));
-            (void)store->size();
-            for (auto &k2 : store->keysWithPrefix("stress-"))
-              if (k2.size() != 8) note("keysWithPrefix returned a foreign key");
-            reads++;
-          }
-          catch (const std::exception &e)
-          {
-            note(std::string("reader threw ") + typeid(e).name());
-          }
+            x = x * 6364136223846793005ULL + 1442695040888963407ULL;
+            unsigned i = ((x >> 33) % 8 == 0) ? static_cast<unsigned>((x >> 36) % 4) : focus.load();
+            try
+            {
+              auto v = store->get(keyOf(i));
+              if (v && !good(i, *v)) note("get returned a torn or foreign value for " + keyOf(i));
+              if (++it % 4 == 0)
+              {
+                auto gb = store->getBatch({keyOf(i), keyOf((i + 1) % 4)});
+                for (auto &kv : gb)
+                  if (!good(static_cast<unsigned>(kv.first.back() - 'a'), kv.second)) note("getBatch returned a torn or foreign value for " + kv.first);
+                (void)store->exists(keyOf(i));
+                (void)store->ttl(keyOf(i));
+                (void)store->size();
+                for (auto &k2 : store->keysWithPrefix("stress-"))
+                  if (k2.size() != 8) note("keysWithPrefix returned a foreign key");
+              }
+              reads++;
+            }
+            catch (const std::exception &e)
+            {
+              note(std::string("reader threw ") + typeid(e).name());
+            }
+          } while (!wdone.load());
+          idle++;
         }
       };
       std::thread r1(readerFn, 11), r2(readerFn, 23);
-      auto t0 = std::chrono::steady_clock::now();
-      while (std::chrono::steady_clock::now() - t0 < std::chrono::milliseconds(ms))
+      // quiescence: no call of the three threads is in flight and the clock stands still; the wheel and the eviction worker may
+      // still evict, but only keys whose expiry has passed, which no read path shows any more
+      auto coherent = [&]() -> std::string
       {
-        // (never past the last millisecond system_clock::time_point can hold: beyond it now() itself overflows)
-        if (g_wallMs.load() + 4 < 9223372036854LL) g_wallMs += 1 + static_cast<long long>(seed % 3);
-        std::this_thread::sleep_for(std::chrono::milliseconds(1));
+        for (unsigned i = 0; i < 4; ++i)
+        {
+          const std::string k2 = keyOf(i);
+          auto g = store->get(k2);      // cache fast path first
+          auto gs = store->getString(k2);
+          bool e = store->exists(k2);   // authoritative: _kv / _expiry under _mutex
+          auto gb = store->getBatch({k2});
+          if (g.has_value() != e)
+            return "after the racing calls returned, get(" + k2 + ") " + (g ? "returns a value" : "returns nothing") + " but exists() is " + (e ? "true" : "false");
+          if (gs.has_value() != e) return "after the racing calls returned, getString(" + k2 + ") and exists() disagree";
+          if (g && (gb.find(k2) == gb.end() || gb[k2] != *g)) return "after the racing calls returned, get(" + k2 + ") and getBatch() return different values";
+          if (g && !good(i, *g)) return "get returned a torn or foreign value for " + k2;
+        }
+        std::string inv = invariants();
+        return inv == "ok" ? "" : "after the racing calls returned: " + inv;
+      };
+      auto t0 = std::chrono::steady_clock::now();
+      unsigned long rounds = 0;
+      std::string incoherent;
+      while (incoherent.empty() && (rounds == 0 || std::chrono::steady_clock::now() - t0 < std::chrono::milliseconds(ms)))
+      {
+        wdone = false;
+        idle = 0;
+        focus = static_cast<unsigned>((seed + rounds * 2654435761ULL) >> 3) % 4;
+        gen++;
+        while (idle.load() < 3)
+        {
+          // (never past the last millisecond system_clock::time_point can hold: beyond it now() itself overflows)
+          if (g_wallMs.load() + 4 < 9223372036854LL) g_wallMs += 1 + static_cast<long long>(seed % 3);
+          usleep(100);
+        }
+        rounds++;
+        incoherent = coherent();
       }
-      stop = true;
+      quit = true;
       writer.join();
       r1.join();
       r2.join();
       g_stressReads += reads.load();
+      g_stressRounds += rounds;
+      if (big) g_stressBigRounds += rounds;
+      g_muteEvents = false;
       takeEvents();
       if (bad.load()) return "BAD:" + firstBad;
+      if (!incoherent.empty()) return "BAD:" + incoherent;
       return "ok";
     }
     if (op == "sleep")
@@ -321,6 +408,119 @@ struct Harness
       std::this_thread::sleep_for(std::chrono::milliseconds(a));
       takeEvents();
       return "ok";
+    }
+    if (op == "racegate" || op == "wracegate")
+    { // racegate <key> <remove | persist | clear | set <v> | setttl <v> <ttl> | expireat <ms>>   (deterministic mode)
+      // wracegate <key> <v1> <same writers>: the gated call is set(key, v1) instead of get(key) (two writers, see below)
+      // A deterministic schedule for get(key) on the cache-miss path against one writer of the key: the main thread calls get(key);
+      // when it reaches its exclusive acquisition of _cacheMutex (updateCache) the gate (kv_interpose.hpp) releases a second thread
+      // that runs the writer, and holds the reader until the writer has RETURNED or is about to BLOCK on _mutex.  With the lock
+      // scopes the model assumes (Gen.Kv.getRefillsCacheUnderStoreLock) the writer blocks: the outcome is `get` then the writer,
+      // sequentially, which is what the model answers.  If get() never reaches the gate (cache hit, absent or expired key,
+      // cache off) the writer simply runs after it.  Answer: `<get result>;<writer result> | <file events>`.
+      // `wracegate`: the same gate with set(key, v1) as the gated call: it stands at the exclusive acquisition of _cacheMutex inside
+      // its updateCache when the second writer is released.  With the lock scope the model assumes for writers
+      // (Gen.Kv.writersTouchCacheUnderStoreLock: _cache is updated while _mutex is still held exclusively) the second writer blocks
+      // and the outcome is the set, then the writer.  A writer that gives _mutex back before its cache update lets the second
+      // writer run in between and then overwrites the cache entry with v1 (theorem M6_any_threads_unlocked_writer_refuted).
+      const bool gatedIsSet = op == "wracegate";
+      std::vector<std::string> u(t.begin(), t.end());
+      Bytes kk, wv, v1;
+      long long warg = 0;
+      if (gatedIsSet)
+      {
+        if (u.size() < 4 || !vh::ofHex(u[2], v1)) return "bad-op";
+        u.erase(u.begin() + 2);
+      }
+      const std::vector<std::string> &t = u; // (shadows the op's tokens: from here on `key wop args` in both forms)
+      if (t.size() < 3 || freeRunning || !vh::ofHex(t[1], kk)) return "bad-op";
+      const std::string key = str(kk), wop = t[2];
+      if (wop == "remove" || wop == "persist" || wop == "clear")
+      {
+        if (t.size() != 3) return "bad-op";
+      }
+      else if (wop == "set")
+      {
+        if (t.size() != 4 || !vh::ofHex(t[3], wv)) return "bad-op";
+      }
+      else if (wop == "setttl")
+      {
+        if (t.size() != 5 || !vh::ofHex(t[3], wv) || !parseInt(t[4], warg)) return "bad-op";
+      }
+      else if (wop == "expireat")
+      {
+        if (t.size() != 4 || !parseInt(t[3], warg)) return "bad-op";
+      }
+      else return "bad-op";
+      (gatedIsSet ? g_wgateOps : g_gateOps)++;
+      Gate &g = g_gate;
+      g.gatedIsWriter = gatedIsSet;
+      g.armed = false;
+      g.writerBlocked = false;
+      g.writerDone = false;
+      g.go = false;
+      g.writerActive = false;
+      g.target = static_cast<pthread_rwlock_t *>(store->_cacheMutex.native_handle());
+      g.storeLock = static_cast<pthread_rwlock_t *>(store->_mutex.native_handle());
+      g.reader = pthread_self();
+      std::string wres;
+      std::thread writer([&]
+      {
+        g.writer = pthread_self();
+        g.writerActive = true;
+        while (!g.go.load()) usleep(50);
+        try
+        {
+          if (wop == "remove") store->remove(key);
+          else if (wop == "persist") store->persist(key);
+          else if (wop == "clear") store->clear();
+          else if (wop == "set") store->set(key, wv);
+          else if (wop == "setttl") store->set(key, wv, std::chrono::seconds(warg));
+          else store->expireAt(key, tpOfMs(warg));
+          wres = "ok";
+        }
+        catch (const iora::storage::KVStoreException &e)
+        {
+          wres = "err:" + errKind(e.what());
+        }
+        catch (const std::exception &e)
+        {
+          wres = std::string("throw ") + typeid(e).name();
+        }
+        g.writerActive = false;
+        g.writerDone = true;
+      });
+      while (!g.writerActive.load()) usleep(50); // the interposer knows the writer's identity before the gate can open
+      g.armed = true;
+      std::optional<std::vector<std::uint8_t>> r;
+      std::string rres;
+      try
+      {
+        if (gatedIsSet)
+        {
+          store->set(key, v1);
+          rres = "ok";
+        }
+        else
+        {
+          r = store->get(key);
+          rres = optVal(r);
+        }
+      }
+      catch (const iora::storage::KVStoreException &e)
+      {
+        rres = "err:" + errKind(e.what());
+      }
+      catch (const std::exception &e)
+      {
+        rres = std::string("throw ") + typeid(e).name();
+      }
+      g.armed = false;
+      g.go = true; // gate not reached: the writer runs now, after the get
+      writer.join();
+      g.target = nullptr;
+      g.storeLock = nullptr;
+      return rres + ";" + wres + " | " + takeEvents();
     }
     Bytes k, v;
     try
@@ -382,9 +582,15 @@ struct Harness
       }
       if (op == "rmprefix")
       {
-        if (t.size() != 2 || !vh::ofHex(t[1], k)) return "bad-op";
+        // rmprefix <prefix> [<key>*]: the keys (the order a previous run observed; used by the model only) are ignored here.
+        // removeWithPrefix() removes in the order keysWithPrefix() lists the keys = the iteration order of _kv, which does not change
+        // between two traversals without a mutation in between: the same public call, made just before, reports the order used.
+        // It is an INPUT of the model (third field); free-running cases (a worker may evict in between) compare results only.
+        if (t.size() < 2 || !vh::ofHex(t[1], k)) return "bad-op";
+        std::vector<std::string> order;
+        for (auto &x : store->keysWithPrefix(str(k))) order.push_back(vh::toHex(x));
         size_t n = store->removeWithPrefix(str(k));
-        return "count:" + std::to_string(n) + " | " + takeEvents();
+        return "count:" + std::to_string(n) + " | " + takeEvents() + " | order:" + csv(order, false);
       }
       if (op == "clear")
       {
@@ -471,14 +677,7 @@ struct Harness
     }
     catch (const iora::storage::KVStoreException &e)
     {
-      std::string m = e.what();
-      std::string kind = "other";
-      if (m.find("Key cannot be empty") != std::string::npos) kind = "emptyKey";
-      else if (m.find("Key too large") != std::string::npos) kind = "keyTooLarge";
-      else if (m.find("Value too large") != std::string::npos) kind = "valueTooLarge";
-      else if (m.find("TTL must be greater than zero") != std::string::npos) kind = "badTtl";
-      else if (m.find("Invalid key or value in batch") != std::string::npos) kind = "badBatch";
-      else if (m.find("Failed to initialize KVStore") != std::string::npos) kind = "loadFailed";
+      std::string kind = errKind(e.what());
       return "err:" + kind + " | " + takeEvents();
     }
     catch (const std::exception &e)
